@@ -34,7 +34,7 @@ from spec import multipart_spec as ms
 BOUND = ('field lists: (1) every single field over 16 names (ASCII, space, ";", "=", backslash incl. trailing, UTF-8 2/3/4-byte, '
          '"a; filename=b") x {11 text values | 16 file names x content types {none, text/plain, with parameter} | 14 adversarial '
          'contents (CR, LF, dashes, delimiter prefixes)}; (2) every sequence of length <=3 (quick) / <=4 (thorough) over 8 '
-         'parts (duplicate names, text/file interleaving, same name as text and file); (3) every byte string of length <=4 '
+         'parts (duplicate names, text/file interleaving, same name as text and file); (3) every byte string of length <=5 '
          '(quick) / <=6 (thorough) over {CR,LF,-,X,a} that is legal for boundary X as file content (middle/only part) and as '
          'text value; (4) seeded random lists of 0..6 parts with random names/binary data up to 3000 bytes and random legal '
          'token boundaries of length 1..70; x boundaries {X, BND, --a-, Ab\'+_.-9, 70 chars} x max_memfile_size {exactly the '
@@ -441,8 +441,34 @@ def run_case(case):
 # ------------------------------------------------------------------------------------------------------------------
 # recognisers of known defect classes (labels only)
 
-def _semicolon_in_quoted(case):
-    return any(';' in f[1] or (f[0] == 'file' and ';' in f[2]) for f in case['fields'])
+def _strings(x, out):
+    if isinstance(x, str):
+        out.add(x)
+    elif isinstance(x, dict):
+        for k, v in x.items():
+            out.add(k)
+            _strings(v, out)
+    elif isinstance(x, (list, tuple)):
+        for v in x:
+            _strings(v, out)
+    return out
+
+
+def _cut_at_semicolon(case, failure):
+    """a name / file name of the case that contains ';' shows up cut at its first ';' in what was observed"""
+    cut = set()
+    for f in case['fields']:
+        for s in [f[1]] + ([f[2]] if f[0] == 'file' else []):
+            if ';' in s:
+                cut.add(s.split(';', 1)[0])
+                cut.add(s.split(';', 1)[0].strip())
+    if not cut:
+        return False
+    if failure['clause'] == 'R0.status':
+        return True
+    obs = _strings(failure.get('observed'), set())
+    exp = _strings(failure.get('expected'), set())
+    return bool((cut & obs) - exp)
 
 
 def _text_and_file_share_a_name(case):
@@ -454,7 +480,7 @@ def _text_and_file_share_a_name(case):
 FINDINGS = {
     # D6: FieldStorage._patt splits header parameters at ';' inside the quoted string: name="a;b" -> 'a', filename="x;y=z.txt" -> 'x'
     'D6-quoted-param-split-at-semicolon':
-        lambda case, failure: failure['clause'] in ('R0.status', 'R1.forms', 'R2.files', 'R3.post') and _semicolon_in_quoted(case),
+        lambda case, failure: failure['clause'] in ('R0.status', 'R1.forms', 'R2.files', 'R3.post') and _cut_at_semicolon(case, failure),
     # D7: BodyMixin.POST decides "repeated" on the combined dict: a name used by a text field and by an upload mixes forms/files
     'D7-text-and-file-same-name':
         lambda case, failure: failure['clause'] in ('R0.status', 'R1.forms', 'R2.files', 'R3.post') and _text_and_file_share_a_name(case),
